@@ -399,7 +399,7 @@ func (e *Exec) Do(st Step) error {
 	return nil
 }
 
-var symbolicID = regexp.MustCompile(`\{\{(tree|commit)#(\d+)\}\}`)
+var symbolicID = regexp.MustCompile(`\{\{(tree|commit|treepath|commitpath)#(\d+)\}\}`)
 
 func (e *Exec) resolve(st Step) Step {
 	if st.Op != "goit" {
@@ -418,8 +418,13 @@ func (e *Exec) resolve(st Step) Step {
 					return strings.Repeat("b", 40)
 				}
 				id := e.H.Order[n%len(e.H.Order)]
-				if sub[1] == "tree" {
+				switch sub[1] {
+				case "tree":
 					return e.H.Commits[id].Tree
+				case "treepath": // the object file, relative to .goit/objects
+					return e.H.Commits[id].Tree[:2] + "/" + e.H.Commits[id].Tree[2:]
+				case "commitpath":
+					return id[:2] + "/" + id[2:]
 				}
 				return id
 			})
